@@ -177,6 +177,9 @@ def check(index, ctx):
     f, k = Poly.sym("n_byzantine"), Poly.sym("n_selected")
     runs = by_class["Krum"]
     cls = runs[0].cls
+    W_KRUM = _agg.weighting_of(index, "Krum")
+    if W_KRUM is None:
+        raise AnalysisError("anchor vanished: the weighting class Krum is built on")
     n = 0
     for run in runs:
         for r in _agg.returning(run):
@@ -244,7 +247,7 @@ def check(index, ctx):
             ctx.require(ok3 or ok3b, "K", "Krum: weights are indicator vectors of the selected rows", "one_hot(selected indices, m) / zeros(m) with ones stored at the selected indices",
                         "selected indices are not turned into indicator vectors over the m rows", (oh or sc or isn)[0]["loc"] if (oh or sc or isn) else cls.loc())
             # weights = sum of one-hots / n_selected
-            wt = [e for e in r.events if e["kind"] == "op" and e["function"].endswith("_KrumWeighting.forward") and e["op"] in ("div", "mul")]
+            wt = [e for e in r.events if e["kind"] == "op" and _agg.in_weighting(e, W_KRUM) and e["op"] in ("div", "mul")]
             okw = len(wt) == 1 and wt[0]["op"] == "div" and "=n_selected" in wt[0]["right"]
             ctx.require(okw, "K", "Krum: each selected row weighs 1/n_selected", "sum of one-hots divided by n_selected",
                         "weights are not the one-hot sum divided by n_selected: " + "; ".join(f"`{e['text']}`" for e in wt), wt[0]["loc"] if wt else cls.loc())
